@@ -87,6 +87,9 @@ def gen_cases(tier, seed):
     for i in range(30 if tier == "quick" else 300):
         # the SAME graph object (same id label, same size) with other flow values for the second model, or an equal-sized copy of it
         cases.append({"kind": "reflow", "rs": f"C18rf:{seed}:{i}"})
+    for i in range(16 if tier == "quick" else 160):
+        # the caller goes on using (and editing) its own argument objects after it has constructed the model
+        cases.append({"kind": "postedit", "rs": f"C18pe:{seed}:{i}"})
     for i in range(6 if tier == "quick" else 60):
         # models of one process that ask for different numbers of solver threads (own worker group: the HiGHS task scheduler is process-wide)
         cases.append({"kind": "threads", "rs": f"C18thr:{seed}:{i}", "group": "mix"})
@@ -289,6 +292,34 @@ def run_reflow(case):
         return ("solved", round(r[1].get_objective_value(), 6))
     mode = rng.choice(["same-object", "same-id-copy"])
     G = mk(f1, gid="sample-1"); kA = len(p1); kB = len(p2)
+    if cls == "MinFlowDecomp" and rng.random() < 0.5:
+        if rng.random() < 0.7:
+            # a chain of diamonds: first all branch pairs differ (many distinct values, a larger minimum), then all pairs are equal (minimum 2)
+            d_ = rng.randint(2, 3); T_ = rng.choice([7, 9, 11]); cuts_ = rng.sample(range(1, (T_ + 1) // 2), d_) if (T_ + 1) // 2 - 1 >= d_ else [1, 2, 3][:d_]
+            edges = []; f1 = {}; f2 = {}; x2 = rng.choice(cuts_)
+            for j_ in range(d_):
+                u_, w_ = f"m{j_}", f"m{j_ + 1}"
+                for br_, val1, val2 in (("a", cuts_[j_], x2), ("b", T_ - cuts_[j_], T_ - x2)):
+                    for e in ((u_, f"{br_}{j_}"), (f"{br_}{j_}", w_)):
+                        edges.append(e); f1[e] = val1; f2[e] = val2
+            G = mk(f1, gid="sample-1")
+        # the same MODEL object solved again after the caller has overwritten the flow values of its graph: the search runs again on the
+        # graph as it is now (its k-models are rebuilt), so the answer must be the one of a fresh model
+        kw_ = {"flow_attr": "flow", "weight_type": int, "solver_options": {"threads": 1, "time_limit": 20}}
+        if oo is not None:
+            kw_["optimization_options"] = dict(oo)
+        r_ = M.safe_call(fp.MinFlowDecomp, G, **kw_)
+        if r_[0] == "ok":
+            M.safe_call(r_[1].solve)
+            for e in edges:
+                G.edges[e]["flow"] = f2[e]
+            M.safe_call(r_[1].solve)
+            again = ("solved", len([p_ for p_ in r_[1].get_solution()["paths"] if p_])) if r_[1].is_solved() else ("unsolved",)
+            fresh = solve(mk(f2, gid="unrelated"), kB)
+            obs["c18.reflow_same_model_resolves"] += 1
+            if again != fresh and "time" not in str(fresh):
+                viol.append({"sig": "C18/result-depends-on-history/re-solve-after-the-graph-was-updated/MinFlowDecomp", "msg": f"re-solve of the same model: {again}; fresh model on the updated graph: {fresh}; oo={oo} edges={edges} first flow {sorted(f1.items())} second flow {sorted(f2.items())}"[:1200]})
+            return {"viol": viol, "obs": dict(obs), "nontrivial": True, "keys": [hashlib.sha1(repr((edges, sorted(f1.items()), sorted(f2.items()))).encode()).hexdigest()[:14]], "sample": {"reflow": "same-model", "cls": cls}}
     a = solve(G, kA)
     if mode == "same-object":
         for e in edges:
@@ -307,7 +338,62 @@ def run_reflow(case):
     return {"viol": viol, "obs": dict(obs), "nontrivial": True, "keys": [hashlib.sha1(desc.encode()).hexdigest()[:14]], "sample": {"reflow": mode, "cls": cls}}
 
 
+def run_postedit(case):
+    """model constructed with an error_scaling dict / a solution_weights_superset list; the caller then edits ITS objects (they are the caller's data)
+    and only afterwards calls solve() and the getters: everything the model reports must be what the same model reports when the caller's
+    objects are left alone (isolation run on deep copies)"""
+    viol = []; obs = collections.Counter()
+    rng = gen.rng_for(case["rs"])
+    cyc = rng.random() < 0.35
+    base = I.cyc_edge_base(rng, wt="int", max_edges=7, exact=False) if cyc else I.dag_edge_base(rng, wt="int", max_edges=8, exact=False)
+    G = gen.build(I.spec_of(base)); edges = list(G.edges)
+    cls = rng.choice(["kLeastAbsErrorsCycles", "kMinPathErrorCycles"] if cyc else ["kLeastAbsErrors", "kMinPathError", "kLeastAbsErrors"])
+    es = {e: rng.choice([0.5, 0.25, 1]) for e in rng.sample(edges, rng.randint(1, max(1, len(edges) // 2)))}
+    sup = None
+    if not cyc and rng.random() < 0.5:
+        sup = [w for _, w in base["planted"]][:3] + [rng.choice([1, 2])]
+    k = max(1, len(base["planted"]))
+    def make(es_, sup_):
+        kw = {"flow_attr": "flow", "weight_type": int, "k": k, "error_scaling": es_, "solver_options": {"threads": 1, "time_limit": 20}}
+        if sup_ is not None:
+            kw["solution_weights_superset"] = sup_
+        return M.safe_call(getattr(fp, cls), G, **kw)
+    def report(m):
+        M.safe_call(m.solve)
+        if not m.is_solved():
+            st_ = None
+            try:
+                st_ = m.solver.get_model_status()
+            except BaseException:
+                pass
+            return ("unsolved", st_)
+        sol = m.get_solution(); v = M.safe_call(m.is_valid_solution)
+        return ("solved", round(m.get_objective_value(), 6), [list(p_) for p_ in models.routes_of(sol)], list(sol["weights"]), v[1:] if v[0] == "ok" else v[:2])
+    es_live = dict(es); sup_live = list(sup) if sup is not None else None
+    a = make(es_live, sup_live)
+    b = make(copy.deepcopy(es), copy.deepcopy(sup))
+    if a[0] != "ok" or b[0] != "ok":
+        return {"viol": [], "obs": {"c18.postedit_ctor_failed": 1}, "nontrivial": False}
+    # the caller's edits (between construction and solve)
+    for e in list(es_live):
+        es_live[e] = rng.choice([1, 0.25, 0.5])
+    es_live[rng.choice(edges)] = 0.25
+    if sup_live is not None:
+        for i_ in range(len(sup_live)):
+            sup_live[i_] = 1
+    ra = report(a[1]); rb = report(b[1])
+    obs["c18.postedit_histories"] += 1
+    if "kTimeLimit" in (ra[-1], rb[-1]):
+        return {"viol": [], "obs": dict(obs), "nontrivial": False}
+    desc = f"{cls} k={k} error_scaling={es} superset={sup} edges={[(u, v, d.get('flow')) for u, v, d in G.edges(data=True)]}"
+    if ra[:2] != rb[:2] or (ra[0] == "solved" and (ra[4] != rb[4] or sorted(map(str, zip(ra[2], ra[3]))) != sorted(map(str, zip(rb[2], rb[3]))) and ra[1] != rb[1])):
+        viol.append({"sig": f"C18/result-depends-on-history/caller-edits-its-arguments-after-construction/{cls}", "msg": f"with the caller's later edits: {ra}; untouched arguments: {rb}; {desc}"[:1200]})
+    return {"viol": viol, "obs": dict(obs), "nontrivial": True, "keys": [hashlib.sha1(desc.encode()).hexdigest()[:14]], "sample": {"postedit": cls}}
+
+
 def run_case(case):
+    if case.get("kind") == "postedit":
+        return run_postedit(case)
     if case.get("kind") == "threads":
         return run_threads(case)
     if case.get("kind") == "reflow":
